@@ -17,6 +17,7 @@ RULE_OWNER = {
     'tree_cnt': ['C10'], 'book': ['C10'], 'published': ['C10'], 'hier': ['C10'],
     'invoked': ['C10'], 'exception': ['C10', 'C09'], 'rebuild': ['C10'],
     'view': ['C07'], 'zview': ['C07'], 'seen': ['C05'], 'leaves': ['C09'],
+    'update_object': ['C09'],
 }
 
 MC_PROPS = {
